@@ -8,7 +8,7 @@ from gen import B, M
 PID = 'C08'
 LEVEL = 'exploration'
 VARIANTS = {'quick': ['asan', 'plain'], 'thorough': ['asan', 'plain', 'asan-tdbg']}
-RULE = ('mpz_powm/powm_ui over moduli odd, even with 2-adic valuation 1,63,64,65,128 and whole zero low limbs, 2^k, +-1, '
+RULE = ('[also: for C14, modulus sizes on both sides of every REDC/POWM/BINV threshold of each variant\'s own table] mpz_powm/powm_ui over moduli odd, even with 2-adic valuation 1,63,64,65,128 and whole zero low limbs, 2^k, +-1, '
         'sizes 1..12 limbs and around REDC_1_TO_REDC_2/REDC_2_TO_REDC_N/POWM thresholds, odd parts and power-of-two parts around BINV_NEWTON_THRESHOLD (299..303, 307, 451, 602, 606 limbs); bases negative, 0, 1, m-1, >m, multiples of m; '
         'exponents 0,1,2, all-ones of every length 1..70 and at each sliding-window breakpoint (7,25,81,241,673,1793,4609 bits)+-1, sparse '
         'and multi-limb exponents, negative exponents with invertible base; exponent 1/2 with |b| within a few limbs of m or of B^(n-1) and residues 1..n limbs; thin-band residues (b=+-1,+-2, small e); mpz_pow_ui / '
